@@ -445,16 +445,6 @@ func (c *Client) acker() error {
 	for {
 		select {
 		case pkt := <-c.ackQueue:
-			// remove publish from session if pubcomp. this has to happen before
-			// the pubcomp is sent, otherwise a failed transmission would forward
-			// the message again on a retransmitted pubrel
-			if pubcomp, ok := pkt.(*packet.Pubcomp); ok {
-				err := c.session.DeletePacket(session.Incoming, pubcomp.ID)
-				if err != nil {
-					return c.die(SessionError, err)
-				}
-			}
-
 			// send packet
 			err := c.send(pkt, true)
 			if err != nil {
@@ -922,6 +912,16 @@ func (c *Client) processPubrel(id packet.ID) error {
 	ack := func() {
 		once.Do(func() {
 			c.backend.Log(MessageAcknowledged, c, nil, &publish.Message, nil)
+
+			// remove publish from session. this has to happen as soon as the
+			// backend has acknowledged the message and regardless of the state
+			// of the connection, otherwise a pubrel retransmitted after a
+			// connection failure would forward the message again
+			err := c.session.DeletePacket(session.Incoming, id)
+			if err != nil {
+				_ = c.die(SessionError, err)
+				return
+			}
 
 			// queue pubcomp
 			select {
